@@ -196,3 +196,25 @@ def main(argv, seed):
     log(json.dumps(results, indent=1))
     log("SELFTEST " + ("PASSED" if ok else "FAILED"))
     return 0 if ok else 2
+
+
+def trypatch(argv, seed):
+    """./check trypatch <patch.diff> [quick|thorough|mini] — run a tier against a scratch copy of /repo
+    with the patch applied (nothing in /repo or /verif/evidence is touched)."""
+    import subprocess
+    patch = os.path.abspath(argv[0])
+    tier = argv[1] if len(argv) > 1 else "quick"
+    root, repo, sim = make_scratch("trypatch")
+    keep = os.path.join(runner.VERIF, "work", "trypatch-replays")
+    shutil.rmtree(keep, ignore_errors=True)
+    driver.REPLAYS = keep
+    try:
+        p = subprocess.run(["patch", "-p1", "-i", patch], cwd=repo, capture_output=True, text=True)
+        if p.returncode != 0:
+            log("HARNESS-ERROR: patch does not apply: " + p.stdout + p.stderr)
+            return 2
+        if tier == "mini":
+            return driver.run_tier("quick", seed, sim_dir=sim, repo=repo, write_evidence=False, jobs=mini_plan(seed))
+        return driver.run_tier(tier, seed, sim_dir=sim, repo=repo, write_evidence=False)
+    finally:
+        shutil.rmtree(root, ignore_errors=True)
